@@ -144,12 +144,12 @@ func streamC06(env *runEnv) {
 	n := 150
 	big := 1 << 20
 	if env.thorough() {
-		n = 1500
-		big = 8 << 20
+		n = 600
+		big = 4 << 20
 	}
 	for i := 0; i < n; i++ {
 		total := r.Intn(30000)
-		if i%50 == 0 {
+		if i%50 == 0 && (!env.thorough() || i%150 == 0) {
 			total = big
 		}
 		stream := randBytes(r, total)
